@@ -12,6 +12,10 @@ run_demo() {
     mkdir -p io/tests; cp $SRC/demo.rs io/tests/seed_demo.rs
     cargo test -p flatty-io --offline --test seed_demo >/tmp/confirm_$ID.demo.log 2>&1; rc=$?
     rm -rf io/tests
+  elif grep -q "portable/src/seed_demo.rs" $SRC/README.md; then
+    cp $SRC/demo.rs portable/src/seed_demo.rs; printf '\n#[cfg(test)]\nmod seed_demo;\n' >> portable/src/lib.rs
+    cargo test -p flatty-portable --offline seed_demo >/tmp/confirm_$ID.demo.log 2>&1; rc=$?
+    rm portable/src/seed_demo.rs; git checkout -q portable/src/lib.rs
   elif grep -q "io/src/tests" $SRC/README.md; then
     cp $SRC/demo.rs io/src/tests/seed_demo.rs; echo "mod seed_demo;" >> io/src/tests/mod.rs
     cargo test -p flatty-io --offline seed_demo >/tmp/confirm_$ID.demo.log 2>&1; rc=$?
